@@ -16,7 +16,7 @@ Require Import String.
 Require Import Arith Lia List Bool ZArith QArith Qcanon Permutation.
 From TK Require Import Mat_Sums Mat_Core Mat_Qc Mat_EigSelect EigSelect Mat_EigSelect_Tie
                        Lle_Model Lle_Spec Lle_Proof_Triplets Lle_Proof_Lle Lle_Proof_Ltsa
-                       Lle_Proof_Hlle Lle_Proof_Embed Lle_Proof_Gs Lle_Proof_GsQc Lle_Proof_KyFan Lle_Proof_Flat Lle_Proof_Run Lle_Loop HlleLoop Lle_Proof_Loop Lle_Proof_Psd Lle_Proof_EndToEnd Lle_Proof_Scale Lle_Proof_Proj LleCalls Lle_Calls.
+                       Lle_Proof_Hlle Lle_Proof_Embed Lle_Proof_Gs Lle_Proof_GsQc Lle_Proof_KyFan Lle_Proof_Flat Lle_Proof_Run Lle_Loop HlleLoop Lle_Proof_Loop Lle_Proof_Psd Lle_Proof_EndToEnd Lle_Proof_Scale Lle_Proof_Proj LleCalls Lle_Calls Lle_Proof_GsSkip Lle_Proof_LtsaGs.
 Import ListNotations.
 Local Open Scope nat_scope.
 
@@ -858,3 +858,102 @@ Theorem C08_method_calls_table :
   method_ok mc_hlle_sig mc_hlle_call mc_hlle_neighbors mc_hlle_matrix mc_hlle_eig hlle_binding = true.
 Proof. exact lle_calls_table. Qed.
 Print Assumptions C08_method_calls_table.
+
+(* ---------------------------------------------------------------------- *)
+(* 12. Wave 4: locally RANK-DEFICIENT neighbourhoods.  When the k           *)
+(*     neighbours of a sample span fewer than d directions the local        *)
+(*     solver returns arbitrary eigenvectors of eigenvalue 0 as the missing *)
+(*     tangent columns; they are orthogonal to the genuine ones but NOT to  *)
+(*     the constant vector.  What keeps constants and the tangent           *)
+(*     coordinates in the local null space is the Gram-Schmidt loop over    *)
+(*     ALL columns (HLLE as written; KLTSA since repair F51).               *)
+(* ---------------------------------------------------------------------- *)
+(* HLLE: no hypothesis on V whatsoever *)
+Theorem C08_hlle_null_any_tangent :
+  forall (F : Type) (Fo : FieldOps F) (Ff : IsField F) (k d : nat) (prev V : mat F) (a : nat)
+         (c0 : F) (c : nat -> F),
+    gs_nondegenerate (hlle_gs_sf false k d prev V) -> a < k ->
+    sumn k (fun b => hlle_local_sf false k d prev V a b * (c0 + sumn d (fun t => c t * V b t)))%F = 0%F.
+Proof. exact @hlle_null_any_tangent. Qed.
+Print Assumptions C08_hlle_null_any_tangent.
+
+(* the loop that starts at column `start` (start = 0: the code; start = 1 + d: the rewrite "the constant column and
+   the eigenvectors are already orthogonal") has the property exactly under that assumption ... *)
+Theorem C08_hlle_gs_from_annihilates :
+  forall (F : Type) (Fo : FieldOps F) (Ff : IsField F) (start k d : nat) (prev V : mat F) (a : nat)
+         (c0 : F) (c : nat -> F),
+    pairwise_orth k (firstn start (cols_of k (hlle_ncols d) (hlle_Yprod false d prev V))) ->
+    gs_nondegenerate (hlle_gs_sf_from start k d prev V) -> a < k ->
+    sumn k (fun b => hlle_local_sf_from start k d prev V a b * (c0 + sumn d (fun t => c t * V b t)))%F = 0%F.
+Proof. exact @hlle_from_annihilates. Qed.
+Print Assumptions C08_hlle_gs_from_annihilates.
+
+Theorem C08_hlle_gs_from_0_is_code :
+  forall (F : Type) (Fo : FieldOps F) (k d : nat) (prev V : mat F),
+    hlle_gs_sf_from 0 k d prev V = hlle_gs_sf false k d prev V.
+Proof. intros. reflexivity. Qed.
+Print Assumptions C08_hlle_gs_from_0_is_code.
+
+(* ... and is refuted without it: six collinear neighbours, d = 2, second tangent column an eigenvector of
+   eigenvalue 0 with non-zero sum (seeded change C08_4) *)
+Theorem C08_hlle_gs_skip_refuted :
+  sumn 6 (fun b => skipw_V b 0) = 0%F /\
+  dot 6 (mcol skipw_V 0) (mcol skipw_V 1) = 0%F /\
+  sumn 6 (fun b => skipw_V b 1) <> 0%F /\
+  gs_nondegenerate (hlle_gs_sf false 6 2 skipw_prev skipw_V) /\
+  gs_nondegenerate (hlle_gs_sf_from 3 6 2 skipw_prev skipw_V) /\
+  sumn 6 (fun b => hlle_local_sf_from 3 6 2 skipw_prev skipw_V 0 b) <> 0%F /\
+  (forall a, a < 6 -> sumn 6 (fun b => hlle_local_sf false 6 2 skipw_prev skipw_V a b) = 0%F).
+Proof. exact hlle_skip_refuted. Qed.
+Print Assumptions C08_hlle_gs_skip_refuted.
+
+(* non-vacuity of C08_hlle_gs_from_annihilates at start = 1 + d: orthogonal leading columns exist *)
+Definition c08_orthV : mat Qc :=
+  mof [[qz (-5); qz (-3)]; [qz (-3); qz 1]; [qz (-1); qz 2]; [qz 1; qz 3]; [qz 3; qz (-1)]; [qz 5; qz (-2)]].
+
+Example C08_hlle_gs_from_annihilates_nonvacuous :
+  pairwise_orth 6 (firstn 3 (cols_of 6 (hlle_ncols 2) (hlle_Yprod false 2 skipw_prev c08_orthV))) /\
+  gs_nondegenerate (hlle_gs_sf_from 3 6 2 skipw_prev c08_orthV).
+Proof.
+  split.
+  - intros i j dv Hij Hj.
+    assert (Hl : length (firstn 3 (cols_of 6 (hlle_ncols 2) (hlle_Yprod false 2 skipw_prev c08_orthV))) = 3)
+      by (vm_compute; reflexivity).
+    rewrite Hl in Hj.
+    destruct j as [|[|[|j]]]; try lia; destruct i as [|[|i]]; try lia;
+      apply qeqb_ok; vm_compute; reflexivity.
+  - apply gs_nondegenerate_by_compute. vm_compute. reflexivity.
+Qed.
+
+(* KLTSA after repair F51: G G^T fixes 1 and every tangent column, for ANY tangent columns (Qc: formally real) *)
+Theorem C08_ltsa_gs_fixes :
+  forall (k d : nat) (rsk : Qc) (V : mat Qc) (a : nat),
+    dot k (fun _ => rsk) (fun _ => rsk) = 1%F ->
+    gs_nondegenerate (ltsa_gs_sf k d rsk V) -> a < k ->
+    sumn k (fun b => ltsa_P_gs k d rsk V a b) = 1%F /\
+    (forall t, t < d -> sumn k (fun b => ltsa_P_gs k d rsk V a b * V b t)%F = V a t).
+Proof. exact ltsa_gs_fixes_Qc. Qed.
+Print Assumptions C08_ltsa_gs_fixes.
+
+Theorem C08_ltsa_gs_null_span :
+  forall (k d : nat) (rsk : Qc) (V : mat Qc) (a : nat) (c0 : Qc) (c : nat -> Qc),
+    dot k (fun _ => rsk) (fun _ => rsk) = 1%F ->
+    gs_nondegenerate (ltsa_gs_sf k d rsk V) -> a < k ->
+    sumn k (fun b => (delta a b - ltsa_P_gs k d rsk V a b) * (c0 + sumn d (fun t => c t * V b t)))%F = 0%F.
+Proof. exact ltsa_gs_null_span_Qc. Qed.
+Print Assumptions C08_ltsa_gs_null_span.
+
+(* the code before F51 (no loop) is refuted on an orthonormal answer of the local solver for four collinear
+   neighbours; the repaired loop is correct on the same input (which is also the non-vacuity witness of the two
+   theorems above) *)
+Theorem C08_ltsa_no_gs_refuted :
+  dot 4 (fun _ => lgw_rsk) (fun _ => lgw_rsk) = 1%F /\
+  dot 4 (mcol lgw_V 0) (mcol lgw_V 0) = 1%F /\ dot 4 (mcol lgw_V 1) (mcol lgw_V 1) = 1%F /\
+  dot 4 (mcol lgw_V 0) (mcol lgw_V 1) = 0%F /\ sumn 4 (mcol lgw_V 0) = 0%F /\
+  sumn 4 (fun b => ltsa_P 2 lgw_rsk lgw_V 0 b) <> 1%F /\
+  gs_nondegenerate (ltsa_gs_sf 4 2 lgw_rsk lgw_V) /\
+  (forall a, a < 4 -> sumn 4 (fun b => ltsa_P_gs 4 2 lgw_rsk lgw_V a b) = 1%F /\
+                      (forall t, t < 2 -> sumn 4 (fun b => ltsa_P_gs 4 2 lgw_rsk lgw_V a b * lgw_V b t)%F
+                                          = lgw_V a t)).
+Proof. exact ltsa_no_gs_refuted. Qed.
+Print Assumptions C08_ltsa_no_gs_refuted.
